@@ -7,3 +7,8 @@ def decode_encode(var, data):
 
 def encode_decode(var, value):
     return var.decode_raw(var.encode_raw(value))
+
+
+def assoc_then_remove(node, net):
+    node.associate_network(net)
+    node.remove_network()
